@@ -38,6 +38,8 @@ var rules = []rule{
 	{from: "go4.org/syncutil", to: "verif/shim/syncutil"},
 	{from: "os", to: "verif/shim/os", only: []string{"pkg/blobserver/diskpacked"}},
 	{from: "syscall", to: "verif/shim/syscall", only: []string{"pkg/blobserver/diskpacked"}},
+	// WaitForBlob's deadline timer: see shim/time (fake-clock livelock at now == deadline)
+	{from: "time", to: "verif/shim/time", only: []string{"pkg/blobserver"}},
 }
 
 // skipDirs are perkeep trees that need services unavailable offline or are
